@@ -160,6 +160,13 @@ def run(ctx):
         ("two dictionaries", {"schema": '{\n  "a": {\n    @id: 1\n  },\n  "b": {\n    "inner": {\n      @id: 2\n    }\n  }\n}', "types": [["@id", '"k1" // {minLength: 2}']]}, None, None),
         ("minItems at the recursion limit", {"schema": "@T", "types": [["@T", '{\n  "kids": [ // {optional: true, minItems: 1}\n    @T\n  ]\n}']]}, None, "cutoff"),
         ("minItems at the recursion limit", {"schema": "@L", "types": [["@L", '[ // {minItems: 2}\n  1,\n  @L // {nullable: true}\n]']]}, None, "cutoff"),
+        ("required recursion through an array that may not be empty", {"schema": "@R", "types": [["@R", '{\n  "kids": [ // {minItems: 1}\n    @R\n  ]\n}']]}, None, "cutoff"),
+        ("required recursion through an array that may not be empty", {"schema": "@R", "types": [["@R", '{\n  "kids": [ // {minItems: 2}\n    1,\n    @R\n  ]\n}']]}, None, "cutoff"),
+        ("required recursion through an array that may not be empty", {"schema": "@B", "types": [["@B", "@B | @A"], ["@A", '[ // {minItems: 1}\n  @B\n]']]}, None, "cutoff"),
+        ("required recursion through an array that may not be empty", {"schema": '{\n  "tree": @R // {nullable: true}\n}', "types": [["@R", '{\n  "kids": [ // {minItems: 1}\n    @R\n  ]\n}']]}, None, "cutoff"),
+        ("required recursion through an array that may not be empty", {"schema": '@R // {nullable: true}', "types": [["@R", '{\n  "kids": [ // {minItems: 1}\n    @R\n  ]\n}']]}, None, "cutoff"),
+        ("recursion through an array: only the first position is required", {"schema": "@R", "types": [["@R", '{\n  "kids": [ // {minItems: 1}\n    1,\n    @R\n  ]\n}']]}, None, "cutoff"),
+        ("nullable property over a recursion through an array that may not be empty", {"schema": "@R", "types": [["@R", '{\n  "a": @S // {nullable: true}\n}'], ["@S", '[ // {minItems: 1}\n  @R\n]']]}, None, "cutoff"),
         ("or on an empty container", {"schema": '[] // {or: [{type: "array"}, {type: "string"}]}'}, None, None),
         ("or on an empty container", {"schema": '{} // {or: [{type: "object"}, {type: "string"}]}'}, None, None),
         ("or on an empty container", {"schema": '{\n  "k": [] // {or: [{type: "array"}, {type: "string"}]}\n}'}, None, None),
